@@ -224,6 +224,15 @@ class NetworkResourceService(BaseResourceServiceImpl):
                 ip = self._devices[app_unique_name]['ip']
 
             if 'device' not in self._devices[app_unique_name]:
+                # Remove a pair left behind by an interrupted request (it
+                # never made it into the bridge).
+                try:
+                    netdev.dev_state(veth0)
+                    netdev.link_del_veth(veth0)
+                except (OSError, IOError) as err:
+                    if err.errno != errno.ENOENT:
+                        raise
+
                 # Create the interface pair
                 netdev.link_add_veth(veth0, veth1)
                 # Configure the links
